@@ -33,9 +33,18 @@ fn main() {
             std::process::exit(orch::check(&args[1], &args[2]))
         }
         "replay" => std::process::exit(orch::replay(args.get(1).unwrap_or_else(|| usage()))),
-        "worker" => orch::worker(&args[1..]),
-        "rehash" => orch::rehash(&args[1..]),
-        "runplan" => orch::runplan(&args[1]),
+        "worker" => {
+            let a = args[1..].to_vec();
+            let _ = run::on_runner_thread(move || orch::worker(&a));
+        }
+        "rehash" => {
+            let a = args[1..].to_vec();
+            let _ = run::on_runner_thread(move || orch::rehash(&a));
+        }
+        "runplan" => {
+            let a = args[1].clone();
+            let _ = run::on_runner_thread(move || orch::runplan(&a));
+        }
         "show" => {
             let prop = &args[1];
             let seed: u64 = args[2].parse().unwrap();
@@ -56,13 +65,16 @@ fn main() {
             }
         }
         "dev" => {
+            let args = args.clone();
+            let _ = run::on_runner_thread(move || {
             let prop = &args[1];
             let n: u64 = args.get(2).and_then(|s| s.parse().ok()).unwrap_or(1000);
             let base: u64 = args.get(3).and_then(|s| s.parse().ok()).unwrap_or(1);
+            let start: u64 = args.get(4).and_then(|s| s.parse().ok()).unwrap_or(0);
             let mut by_rule: std::collections::BTreeMap<String, (u64, u64)> = Default::default();
             let t0 = std::time::Instant::now();
             let mut trig = 0;
-            for i in 0..n {
+            for i in start..start + n {
                 let seed = rng::mix(base, i);
                 let plan = orch::gen_for(prop, seed, "quick");
                 let out = orch::run_any(&plan, false);
@@ -81,6 +93,7 @@ fn main() {
             for (k, v) in by_rule {
                 println!("{:6} {}  (first seed {})", v.0, k, v.1);
             }
+            });
         }
         _ => usage(),
     }
